@@ -38,6 +38,13 @@ def handle (op : String) (args : List String) (impl : String) : Option (String Ã
   match op, args with
   | "b64", [h] =>
     (bytesOfHexStr h).map fun s => (showRes (decodeAny s), holdsB64 s impl)
+  | "b64jwt", [h] =>
+    -- the third segment of a JWT is accepted iff it is base64 (and holds no '.', which would make a fourth segment)
+    (bytesOfHexStr h).map fun s =>
+      let spec := !(specResults s).isEmpty && !s.contains 46
+      let model := (decodeAny s).isOk && !s.contains 46
+      (toString model, if impl == toString spec then "holds"
+        else s!"FAILS accept_iff: as a JWT segment the text is {if spec then "valid" else "invalid"} base64 per RFC 4648 but IsJWT says {impl}")
   | "b64go", [en, h] =>
     match encOfName en, bytesOfHexStr h with
     | some e, some s =>
